@@ -84,6 +84,18 @@ func init() {
 		"iso9660/squashfs with a workspace (not finalized) write to the OS workspace directory, not to the image: not part of the property",
 		"arbitrary interleavings: each entry point is specified against any state it can start from (fs.backend stable), which covers every sequential history; concurrent use is C17",
 	}
+	propAssumptions["C16"] = []string{
+		"an io.Reader is a sequential stream: successive Reads deliver consecutive bytes of one fixed sequence, never past its end, io.EOF only at the end (ghost consumed(r), streamlen(r)); io.ReadFull and io.ReadAll are modelled on top of that",
+		"fs.FS.Open returns a newly opened file, distinct from files opened earlier",
+		"io.Writer.Write returns n < len(p) only together with an error (as documented)",
+		"accessors of fs.DirEntry / fs.FileInfo (IsDir, Size ...) are deterministic and side-effect free",
+	}
+	propNotDecided["C16"] = []string{
+		"byte-for-byte correspondence between the chunks compared by bytes.Equal and the two streams (the invariant with the quantified stream model timed out in every solver; only lengths, end-of-stream and the per-chunk comparison's place in the control flow are proved)",
+		"CopyFileSystem / copyDir as a whole: recursion over directories, excluded names, symlinks, timestamps",
+		"CompareFS's second walk (extra paths in the target) and the seen-set",
+		"the destination filesystems' own Write/OpenFile (C01, C04) and that data written is data read back",
+	}
 	propAssumptions["C12"] = []string{"partition.Read: GPT is probed before MBR (call-site assertions); filesystem probing in disk.GetFilesystem is not under contract"}
 	propNotDecided["C12"] = []string{"filesystem type recognition (disk.GetFilesystem and the per-filesystem Read acceptance tests)", "stale bytes of a previous filesystem", "labels and contents"}
 }
